@@ -710,8 +710,48 @@ def make_run_valid(work: str):
             env = _env(work)
             root = _materialise(env, files)
             _check_commands(o, env, cfg, ref, ok_stmt, ok_sid, files, root)
+            if parsed is not None:
+                _name_case(o, env, root, text, toks, extern, parse, parsed)
 
     return run_valid
+
+
+def _cmd_bytes(img) -> list:
+    return [[bytes(c.export()).hex() for c in sec._commands] for sec in img.boot_sections]
+
+
+def _name_case(o: Oracle, env: dict, root: str, text: str, toks: list, extern: list, parse, parsed) -> None:
+    """(e) memory names written in another case (`FUSE`, `Qspi`): the documentation writes them in lower case; a program that
+    spells one differently is either refused or means what the lower-case spelling means - never something else."""
+    names = [t for t in toks if t.text.lower() in BD.MEM_NAMES and t.text in BD.MEM_NAMES]
+    if not names:
+        return
+    pick = int(hashlib.sha256(text.encode()).hexdigest()[:4], 16)
+    victim = names[pick % len(names)].text
+    other = victim.upper() if pick & 0x100 else victim.capitalize()
+    import re
+
+    variant = re.sub(r"(?<![A-Za-z0-9_])%s(?![A-Za-z0-9_])" % re.escape(victim), other, text)
+    if variant == text:
+        return
+    o.label("name_case:" + victim)
+    status, got = parse(variant)
+    if status == "exc" or got is None:
+        o.label("name_case:refused")
+        return
+    try:
+        img_v = _load_from_config(env, got, root)
+    except Exception:  # noqa: BLE001
+        o.label("name_case:refused")
+        return
+    try:
+        img_o = _load_from_config(env, parsed, root)
+    except Exception:  # noqa: BLE001
+        return  # the original does not build: judged by (b)
+    o.label("name_case:accepted")
+    a, b = _cmd_bytes(img_v), _cmd_bytes(img_o)
+    if a != b:
+        o.fail("name_case", "mistranslated:" + victim, "%r accepted with another meaning than %r: %s against %s" % (other, victim, a, b))
 
 
 # ------------------------------------------------------------------ run_case: one unsupported construct
